@@ -40,7 +40,8 @@ Deviations from DESIGN.md section 5 (C19):
 * the factory coverage uses ALL generated angles, not ">= 12";
 * additional clauses: constructors must not modify the arrays they are
   given, slicing twice / slicing must not change the parent or earlier
-  slices (root cause of the incomplete F20 repair, known finding K7);
+  slices (root cause of the incomplete F20 repair; findings K7 / K8, both
+  repaired in /repo, the clauses run on every case);
 * curved 3-D detectors are only generated with exactly perpendicular
   integer axes (the library compares the dot product with 0.0 exactly).
 """
@@ -1127,10 +1128,6 @@ def run_geom(desc):
     pc_d = _patclass(None, dcomps)
     k3 = kind in ('cyl', 'sph') and 'within-d' in pc_d
     k6 = M == 3 and _bshape(mcomps) != _bshape(mcomps[:2])
-    moved = bool(np.any(ref.t != 0)) and cls in ('par2d', 'par3d_axis')
-    # arguments the constructors are known to modify in place (K7 / K8)
-    risky = (('det_pos_init' in passed and bool(np.any(ref.t != 0))) or
-             'src_to_det_init' in passed)
     if not known_region('C19-K3', k3):
         col.run(check_detector_vec, geom.detector, kind, dcomps, dsingle,
                 strata)
@@ -1148,16 +1145,11 @@ def run_geom(desc):
         col.run(_check_bad, geom, bad, cname, dname, mlo, mhi, dlo, dhi, M, D)
         strata.append('bad-shapes:' + bad)
     if desc.get('slice') is not None:
-        if not (known_region('C19-K9', cls == 'cone' and kind in ('cyl',
-                                                                   'sph'))
-                or known_region('C19-K7', moved and argcls == 'array')):
-            sl = dict(desc['slice'])
-            if sl.get('repeat') and known_region('C19-K7', moved):
-                sl['repeat'] = False
-            col.run(_check_slice, geom, ref, sl, cname, argcls, n, M,
-                    D, tol, dlo, dhi, divergent, strata, passed,
-                    purity=probe or not risky)
-    elif not known_region('C19-K7/K8', risky):
+        if not known_region('C19-K9', cls == 'cone' and kind in ('cyl',
+                                                                  'sph')):
+            col.run(_check_slice, geom, ref, desc['slice'], cname, argcls, n,
+                    M, D, tol, dlo, dhi, divergent, strata, passed)
+    else:
         col.run(_check_purity, passed, cname)
     if not known_region('C19-K4', D == 2 and 'within-d' in pc_d):
         col.run(check_detector_measure_vec, geom.detector, kind, dcomps,
@@ -1283,7 +1275,7 @@ def _cmp_snapshot(new, old, tol, sig, what):
 
 
 def _check_slice(geom, ref, sl, cname, argcls, n, M, D, tol, dlo, dhi,
-                 divergent, strata, passed, purity=True):
+                 divergent, strata, passed):
     ai, index = _slice_index(sl)
     strata.append('slice:' + ('int' if sl['a'][0] == 'i' else
                               'step' if sl['a'][3] not in (None, 1)
@@ -1324,8 +1316,7 @@ def _check_slice(geom, ref, sl, cname, argcls, n, M, D, tol, dlo, dhi,
     after = _snapshot(geom, sub, dpts, divergent, n)
     _cmp_snapshot(after, before, tol / 8, psig.format('parent-changed') + '|{}',
                   'the original geometry after slicing')
-    if purity:
-        _check_purity(passed, cname)
+    _check_purity(passed, cname)
     if sl.get('repeat'):
         s2 = _call('C19|slice-raise', cname + '|' + type(geom.detector).__name__,
                    geom.__getitem__, index)
